@@ -107,21 +107,37 @@ class Handler(BaseHTTPRequestHandler):
                 entry["applied"] = beh
                 body = body + (data[b + 1:b + 2] or b"\0")
             hdrs["Content-Range"] = "bytes %d-%d/%d" % (a, a + len(body) - 1, len(data))
+            if beh == "TruncBody" and len(body) > 1:
+                entry["applied"] = beh
+                self._reply(206, body, hdrs, method, cut=len(body) // 2)
+                entry["status"] = 206
+                return
             self._reply(206, body, hdrs, method)
             entry["status"] = 206
+            return
+        if beh == "TruncBody" and method == "GET" and len(data) > 1:
+            entry["applied"] = beh
+            self._reply(200, data, hdrs, method, cut=len(data) // 2)
+            entry["status"] = 200
             return
         self._reply(200, data, hdrs, method)
         entry["status"] = 200
 
-    def _reply(self, code, body, hdrs, method):
+    def _reply(self, code, body, hdrs, method, cut=None):
         self.send_response(code)
         for k, v in hdrs.items():
             self.send_header(k, v)
         self.send_header("Content-Length", str(len(body)))
         self.end_headers()
         if method != "HEAD":
-            self.wfile.write(body)
+            self.wfile.write(body if cut is None else body[:cut])
         self.wfile.flush()
+        if cut is not None:        # connection lost in the middle of the body
+            try:
+                self.connection.shutdown(socket.SHUT_RDWR)
+            except OSError:
+                pass
+            self.close_connection = True
 
 
 class Server:
